@@ -88,11 +88,13 @@ def encode(payload, sizes, fmt, ext, trailer, final_crlf):
     return bytes(out), framing, after_data, zero_end, longest
 
 
-def variants(tier, n):
+def variants(tier, n, wide=False):
     """(sizes, fmt, ext, trailer, final, corrupt?) for a payload of n bytes.  Corruptions are enumerated for the
     variants without trailer and with the final CRLF (bytes after the zero-size chunk line are never framing)."""
     big = n >= 10
     fmts = ['%x', '0%x', '%X'] if not big else ['%x', '%X', '00%x']
+    if wide:
+        fmts = fmts + ['%017x']      # (1*HEXDIG: any number of leading zeros; only where the size line fits the buffer)
     parts = list(partitions(n)) if not big else [(n,), (n - 1, 1)]
     for sizes in parts:
         for i, fmt in enumerate(fmts):
@@ -109,6 +111,8 @@ def variants(tier, n):
                             corrupt = False
                         if big and j in (1, 2):
                             continue
+                        if fmt == '%017x' and (j or k or n > 2 or not fin):
+                            continue   # the long spelling: plain framing, short payloads
                         yield sizes, fmt, ext, tr, fin, corrupt
 
 
@@ -133,15 +137,20 @@ def shards(tier, seed):
         out.append(('comp', 6, 64))
     out.sort(key=lambda t: -(t[1] if t[1] < 10 else 4))
     out = [('hist', 2, 8), ('hist', 2, 64)] + ([('hist', 3, 8)] if tier == 'thorough' else []) + out
+    # the same requests carrying a Content-Length header besides Transfer-Encoding: chunked
+    out += [('hist+cl', 2, 8)] + [('comp+cl', n, B) for n in ((2,) if tier == 'quick' else (1, 2, 3, 4)) for B in (2, 4, 64)] + [('comp+cl', 3, 64)] + [('wsgi+cl', 3, 4), ('wsgi+cl', 2, 64)]
     # long bodies: very many chunks in one body (nothing in the decoder may add up over the chunks of one request)
     for nchunks, B in ([(300, 4), (3000, 4), (3000, 102400)] if tier == 'quick' else [(3000, 1), (3000, 4), (12000, 64), (36000, 102400)]):
         out.append(('long', nchunks, B))
+    # chunked bodies looked at through the form / JSON accessors (they read the decoded body into memory up to max_memfile_size):
+    # the whole value or a client error, never the beginning of it
+    out.append(('form', 16 if tier == 'quick' else 24, None))
     return [t + (tier,) for t in out]
 
 
 def bounds(tier, seed):
     s = shards(tier, seed)
-    s = [t for t in s if t[0] != 'hist']
+    s = [t for t in s if not t[0].startswith('hist') and t[0] != 'form']
     return {'history_layer': 'all ordered pairs (thorough: triples over a smaller menu) of requests from a menu of legal '
                              'encodings, all their truncations and some corruptions, decoded one after the other in '
                              'one process',
@@ -168,7 +177,12 @@ def payload_of(n):
 def cl_for(raw, B):
     """a chunked request may carry a Content-Length as well (a proxy that re-chunked, a server that passes both on): the transfer
     coding decides, whatever the number says.  A pure function of the case, so that a replay builds the same request."""
-    return [None, '0', str(len(raw)), str(len(raw) // 2)][(len(raw) + B) % 4]
+    if not CL_MODE[0]:
+        return None
+    return ['0', str(len(raw)), str(len(raw) // 2)][(len(raw) + B) % 3]
+
+
+CL_MODE = [False]       # set by the '+cl' shards (and by the replay of their cases)
 
 
 def run_component(om, errs, ex, raw, B, short=True):
@@ -330,7 +344,7 @@ def explore_case(res, om, errs, runner, kind, raw, B, mode, payload, fits, case_
         verdicts.add('client_error' if obs['client_error'] else 'body')
         if v is not None:
             case = {'kind': kind, 'raw': raw, 'B': B, 'mode': mode, 'payload': payload, 'fits': fits,
-                    'choices': choices, 'short': short}
+                    'choices': choices, 'short': short, 'with_cl': CL_MODE[0]}
             if allowed is not None:
                 case['allowed'] = list(allowed)
             case.update(case_extra)
@@ -387,7 +401,7 @@ def work_hist(spec):
         res['outcomes'].add(f'hist {mode}: {"ok" if v is None else v[0]}')
         if v is not None:
             # is it the history? the same request alone
-            core.add_violation(res, {'kind': 'hist', 'B': B, 'seq': [[menu[i][0], menu[i][1], menu[i][2], menu[i][3]] for i in seq]},
+            core.add_violation(res, {'kind': 'hist', 'with_cl': CL_MODE[0], 'B': B, 'seq': [[menu[i][0], menu[i][1], menu[i][2], menu[i][3]] for i in seq]},
                                f'after {[menu[i][3] for i in seq[:-1]]} the request {what} {raw!r}: {v[1]}',
                                sig=f'hist:{mode}:{v[0]}')
     res['states'] += len(menu) ** (depth - 1)
@@ -436,11 +450,76 @@ def work_long(spec):
     return res
 
 
+def form_case(om, kindf, n, sizes, B, cut):
+    """-> (problem or None, status): a chunked urlencoded form / JSON text of n bytes in chunks `sizes`, wire bytes cut after `cut`"""
+    payload = (b'a=' + b'x' * (n - 2)) if kindf == 'forms' else (b'"' + b'x' * (n - 2) + b'"')
+    raw = encode(payload, sizes, '%x', b'', b'', True)[0]
+    whole = cut is None
+    if not whole:
+        raw = raw[:cut]
+    app = om.Ombott({'max_memfile_size': B})
+
+    def h():
+        rq = app.request
+        return repr(rq.forms.get('a') if kindf == 'forms' else rq.json)
+    app.route('/f', 'POST', h)
+    c = wsgi.call(app, wsgi.environ('POST', '/f', body=raw, clen=None, chunked=True,
+                                    ctype='application/x-www-form-urlencoded' if kindf == 'forms' else 'application/json'))
+    want = repr('x' * (n - 2)).encode()
+    if c.escaped is not None or c.code is None or c.code >= 500:
+        return f'status {c.status} {c.escaped!r}', c.status
+    if c.code == 200:
+        if not whole and cut < len(raw) + 0 and cut < encode(payload, sizes, '%x', b'', b'', True)[3]:
+            return f'the encoding cut after {cut} bytes was accepted: request.{kindf} gave {c.body[:40]!r}', c.status
+        if c.body != want:
+            return f'request.{kindf} presented {c.body[:60]!r} ({len(c.body) - 2} characters) as the value; {n - 2} characters were sent', c.status
+    elif not 400 <= c.code < 500:
+        return f'status {c.status}', c.status
+    return None, c.status
+
+
+def work_form(spec):
+    _, nmax, _, tier = spec
+    res = core.new_result()
+    om = sut.load()
+    c = res['counters']
+    for kindf in ('forms', 'json'):
+        for n in range(3, nmax + 1):
+            for sizes in ((n,), (1, n - 1), (n - 1, 1), (2, n - 2), (n // 2, n - n // 2)):
+                for B in range(max(1, n - 3), n + 3):
+                    for cut in [None] + ([n // 2, n + 2] if n % 4 == 0 else []):
+                        case = {'kind': 'form', 'accessor': kindf, 'n': n, 'sizes': list(sizes), 'B': B, 'cut': cut}
+                        core.track(res, case)
+                        bad, status = form_case(om, kindf, n, sizes, B, cut)
+                        res['states'] += 1
+                        res['execs'] += 1
+                        res['transitions'] += 1
+                        c['form_accessor_cases'] += 1
+                        if n > B:
+                            res['nontrivial'] += 1
+                        res['outcomes'].add(f'form accessor: {status}' if bad is None else 'form accessor: BAD')
+                        if bad:
+                            core.add_violation(res, case, f'{kindf} n={n} sizes={sizes} B={B} cut={cut}: {bad}', sig='form:' + bad[:16])
+    core.untrack()
+    core.add_sample(res, {'kind': 'form', 'accessors': ['forms', 'json'], 'max_len': nmax})
+    return res
+
+
 def work(spec):
+    CL_MODE[0] = spec[0].endswith('+cl')
+    try:
+        return _work((spec[0].replace('+cl', ''),) + tuple(spec[1:]))
+    finally:
+        CL_MODE[0] = False
+
+
+def _work(spec):
     if spec[0] == 'hist':
         return work_hist(spec)
     if spec[0] == 'long':
         return work_long(spec)
+    if spec[0] == 'form':
+        return work_form(spec)
     kind, n, B, tier = spec
     res = core.new_result()
     om = sut.load()
@@ -451,7 +530,7 @@ def work(spec):
         tier = 'quick'
     c = res['counters']
     nvar = 0
-    for sizes, fmt, ext, tr, fin, corrupt in variants(tier, n):
+    for sizes, fmt, ext, tr, fin, corrupt in variants(tier, n, wide=B >= 32):
         raw, framing, after_data, zero_end, longest = encode(payload, sizes, fmt, ext, tr, fin)
         fits = longest <= B
         nvar += 1
@@ -510,6 +589,14 @@ def work(spec):
 
 
 def replay(case):
+    CL_MODE[0] = bool(case.get('with_cl'))
+    try:
+        return _replay(case)
+    finally:
+        CL_MODE[0] = False
+
+
+def _replay(case):
     om = sut.load()
     errs = sut.sub('request_pkg.errors')
     if case['kind'] == 'long':
@@ -523,6 +610,12 @@ def replay(case):
         return (f'{case["runner"]}: a legal chunked body of {case["nchunks"]} chunks (variant {case["variant"]}: '
                 f'{["1 byte each", "1 byte each with a 20-byte extension", "3 bytes each"][case["variant"]]}; {len(raw)} bytes on the wire) with '
                 f'max_memfile_size={case["B"]}: {v[1][:200]}')
+    if case['kind'] == 'form':
+        bad, status = form_case(om, case['accessor'], case['n'], tuple(case['sizes']), case['B'], case['cut'])
+        if bad is None:
+            return None
+        return (f'a {"urlencoded form a=xx..." if case["accessor"] == "forms" else "JSON string"} of {case["n"]} bytes sent chunked (chunk sizes {case["sizes"]}'
+                f'{"" if case["cut"] is None else ", wire bytes cut after " + str(case["cut"])}), max_memfile_size={case["B"]}, handler reads request.{case["accessor"]}: {bad}')
     if case['kind'] == 'hist':
         obs = None
         for raw, mode, payload, what in case['seq']:
